@@ -58,14 +58,16 @@ def key_column(draw, n):
 
 @st.composite
 def group_cases(draw):
-    n = draw(st.integers(0, 9))
-    nk = draw(st.sampled_from([1, 1, 2]))
+    # decisive choices first (late draws are pinned to their first option for a share of Hypothesis's examples)
+    what = draw(st.sampled_from(['frame', 'frame', 'frame_axis1', 'series', 'labels', 'apply', 'frame_array']))
+    pos, depths = draw(st.integers(0, 3)), draw(st.sampled_from([[0], [1], [0, 1]]))
+    nk = draw(st.sampled_from([1, 2, 1]))
+    n = draw(st.sampled_from([4, 3, 6, 2, 1, 0, 5, 7, 8, 9]))
     keys = [draw(key_column(n)) for _ in range(nk)]
     extra = draw(st.integers(1, 3))
     payload = draw(gen.blocks(n, extra, kinds=('int64', 'float64', '<U3', 'bool', 'object'), missing=False))
-    what = draw(st.sampled_from(['frame', 'frame', 'frame_axis1', 'series', 'labels', 'apply', 'frame_array']))
-    return {'what': what, 'keys': [k[0] for k in keys], 'kinds': [k[1] for k in keys], 'payload': payload, 'pos': draw(st.integers(0, 3)),
-            'index': draw(gen.index_recipe(n, ('auto', 'int', 'str'))), 'depths': draw(st.sampled_from([[0], [1], [0, 1]]))}
+    return {'what': what, 'keys': [k[0] for k in keys], 'kinds': [k[1] for k in keys], 'payload': payload, 'pos': pos,
+            'index': draw(gen.index_recipe(n, ('auto', 'int', 'str'))), 'depths': depths}
 
 
 def _partition_check(groups, n, key_of, member_positions, what):
@@ -269,7 +271,7 @@ def check_groups(case):
 
 @st.composite
 def window_cases(draw):
-    n = draw(st.integers(0, 8))
+    n = draw(st.sampled_from([5, 4, 6, 3, 2, 1, 0, 7, 8]))
     return {'n': n, 'size': draw(st.integers(1, 4)), 'step': draw(st.integers(0, 3)), 'sized': draw(st.booleans()),
             'label_shift': draw(st.integers(-3, 2)), 'start_shift': draw(st.integers(-2, 2)), 'inc': draw(st.integers(0, 2)),
             'target': draw(st.sampled_from(['series', 'frame0', 'frame1', 'series_array', 'frame0_array'])), 'kind': draw(st.sampled_from(['int', 'str']))}
@@ -353,8 +355,8 @@ def tag(case, f):
 
 
 SUBS = [
-    Sub('groups', group_cases(), check_groups, quick=1500, thorough=48000, tag=tag,
+    Sub('groups', group_cases(), check_groups, quick=6000, thorough=48000, tag=tag,
         rule='partition oracle over iter_group(_items/_labels/_array) and apply'),
-    Sub('windows', window_cases(), check_windows, quick=1500, thorough=48000, tag=tag,
+    Sub('windows', window_cases(), check_windows, quick=6000, thorough=48000, tag=tag,
         rule='iter_window_items vs reference enumeration'),
 ]
